@@ -79,6 +79,14 @@ CLAIMS = {
          "Decides the structural necessary conditions of 'never calls a behaviour change preserved': the verdict depends on successor edges (found the exchanged-branches defect), the size-guard marker cannot short-circuit to preserved (found the OVERSIZED defect), every scalar attribute of every instruction kind — incl. invoke mode and method of go/defer — is compared on both sides (found the defer/go defect), matches are recorded only after a full equivalence test, Preserved needs both unmatched lists empty, 'preserved' only under fingerprint equality or that flag. Completeness of the matching itself is not decided.",
          "Inherits C03's structural guarantees for operand rendering; completeness of structural matching is out of reach.",
          "DESIGN.md §4 C04"),
+ "C01": ("effect classification of every range-over-map and goroutine body reachable from the fingerprint entry points (interprocedural effect summaries relative to parameters, loop-carried value analysis, taint of collections built in iteration order with discharge by a total sort from a reviewed comparator table), reset-completeness of sync.Pool-managed types, census of package-level state and of nondeterminism sources, purity of sort comparators",
+         "Decides 'no source of nondeterminism reaches a fingerprint' as an exhaustive census: all 16 map ranges on the path have only order-insensitive effects or feed a total sort; every field of the pooled canonicaliser is reset/assigned/reset-before-use on acquire (or covered by a checked premise); no run-time-written package state without lock discipline; no clock/random/env/goroutine/select; positions flow only into position fields. This covers every history of prior analyses, every interleaving and every file location at once.",
+         "Determinism of go/packages, go/types, go/ssa is trusted. Effect summaries treat objects reached through local containers as local (stated limitation).",
+         "DESIGN.md §4 C01"),
+ "C10": ("the same effect-classification engine over everything reachable from the check/diff/scan logic and both scanners, plus goroutine-body classification (slot-addressed writes by a per-iteration copy of the index, constants, commutative integer accumulation — never append in completion order) and stability of the rename-candidate sort",
+         "Decides that report order cannot depend on map iteration or scheduling: every range over a map is order-insensitive or sorted before use, goroutines write only to their own slots, and the rename-candidate list is fed and sorted deterministically (the rule that found the diff-order, scan-order and tie-pairing defects repaired in /repo).",
+         "encoding/json's byte-identical output for equal values is trusted; time-valued fields are excluded by the property.",
+         "DESIGN.md §4 C10"),
 }
 
 PENDING_REASON = "static check for this property is not armed yet in this revision of the machinery (see DESIGN.md §4 for the planned structural clauses); not claimed until its rules run silent on the tree and fire on their mutants"
